@@ -2,6 +2,7 @@ CONSTANTS
   NSec = 14
   NVec = 500
   NCand = 300
+  NRtp = 300
 INIT Init
 NEXT Next
 INVARIANTS Emit
